@@ -92,17 +92,18 @@ inductive Ev where
   deriving DecidableEq, Repr, Inhabited
 
 /-- Outputs. `wire`, `closeFrame`, `exec`, `stop`, `deregistered` are observable by the harness;
-    `recv`, `queued`, `started`, `consumed` are ghost marks used to state the theorems. -/
+    `recv`, `queued`, `started`, `consumed`, `returned` are ghost marks used to state the theorems. -/
 inductive Out where
   | wire (f : SFrame)                         -- message written to the socket
   | closeFrame (code : Nat)                   -- close control frame written
   | exec (g : Gen) (k : OpKind)               -- the executor / Subscribe ran for operation g
   | stop (g : Gen)                            -- Stop() called on the source stream of subscription g
   | deregistered                              -- the connection left API.graphqlWSConnections
-  | recv (f : CFrame)                         -- ghost: the reader handled this frame
+  | recv (f : CFrame) (inited : Bool)         -- ghost: the reader handled this frame; `didInit` at that moment
   | queued (f : SFrame)                       -- ghost: accepted by the `outgoing` buffer
   | started (g : Gen) (id : Id) (k : OpKind)  -- ghost: HandleStart accepted the operation
   | consumed (g : Gen) (n : Nat)              -- ghost: the sub-task received source event n
+  | returned (g : Gen)                        -- ghost: `Run` of subscription g returned (its `ended` channel is closed)
   deriving DecidableEq, Repr, Inhabited
 
 structure Cfg where
@@ -203,23 +204,22 @@ def trySend (cfg : Cfg) (s : Sys) (f : SFrame) : Sys × SendRes :=
     (emit { s with outgoing := s.outgoing ++ [f] } (.queued f), .ok)
   else (s, .blocked)
 
+/-- All sends of one handleMessage call are through (or were given up): back to `ReadMessage`, after
+    the `beginClosing` that follows them in the Go code, if any. -/
+def doneSending (s : Sys) (thenClose : Option Nat) : Sys :=
+  match thenClose with
+  | some c => beginClosing { s with reader := .reading } c
+  | none => { s with reader := .reading }
+
 /-- The reader goroutine works through the sends of one handleMessage call. A failed send is logged
-    by the Go code and the following sends fail the same way (the writer stays gone). -/
+    by the Go code (for the ack / keep-alive it also calls `beginClosing(1011)`) and the following
+    sends fail the same way (the writer stays gone). -/
 def pump (cfg : Cfg) (s : Sys) : List SFrame → Bool → Option Nat → Sys
-  | [], _, thenClose =>
-    let s := { s with reader := .reading }
-    match thenClose with
-    | some c => beginClosing s c
-    | none => s
+  | [], _, thenClose => doneSending s thenClose
   | f :: rest, failClose, thenClose =>
     match trySend cfg s f with
     | (s', .ok) => pump cfg s' rest failClose thenClose
-    | (s', .failed) =>
-      let s' := { s' with reader := .reading }
-      let s' := if failClose then beginClosing s' 1011 else s'
-      match thenClose with
-      | some c => beginClosing s' c
-      | none => s'
+    | (s', .failed) => doneSending (if failClose then beginClosing s' 1011 else s') thenClose
     | (s', .blocked) => { s' with reader := .sending (f :: rest) failClose thenClose }
 
 def findSub (subs : List (Id × Gen)) (id : Id) : Option Gen :=
@@ -244,28 +244,44 @@ def callStop (s : Sys) (g : Gen) : Sys :=
 
 def eraseSub (subs : List (Id × Gen)) (id : Id) : List (Id × Gen) := subs.filter (fun p => p.1 != id)
 
+/-- The duplicate-id check of `HandleStart` for subscription operations. `none`: "if the
+    subscription already exists, ignore this message". Otherwise the state to continue from: the
+    unchanged one, or (fix 02) the one in which the ended subscription holding the id was released
+    (its Stop() called, its map entry deleted). -/
+def admitSub (cfg : Cfg) (s : Sys) (id : Id) : Option Sys :=
+  match findSub s.subs id with
+  | none => some s
+  | some g' =>
+    if cfg.reuseFix && taskEnded s g' then some (callStop { s with subs := eraseSub s.subs id } g')
+    else none
+
+/-- An operation that is answered on the read loop: SendData then SendComplete. `exec`: whether a
+    resolver runs for it. -/
+def startSync (s : Sys) (g : Gen) (id : Id) (k : OpKind) (exec : Bool) : Sys × List SFrame :=
+  let s := emit s (.started g id k)
+  (if exec then emit s (.exec g k) else s, [.result id g 0, .complete id g])
+
+/-- `graphql.Subscribe` succeeded: the map entry and the subscription goroutine. -/
+def startSub (s : Sys) (g : Gen) (id : Id) : Sys :=
+  let s := emit (emit s (.started g id .subscription)) (.exec g .subscription)
+  { s with subs := (id, g) :: s.subs, tasks := s.tasks ++ [{ gen := g, id := id }] }
+
 /-- graphqlws.go `HandleStart` for operation `g`. Returns the state and the messages to send. -/
 def handleStart (cfg : Cfg) (s : Sys) (g : Gen) (id : Id) (k : OpKind) : Sys × List SFrame :=
   match k with
-  | .invalid => (emit s (.started g id k), [.result id g 0, .complete id g])
+  | .invalid => startSync s g id k false
   | .query | .mutation =>
     -- the executor refuses to call resolvers once the connection's context is cancelled
     -- (executor.go executeField: `e.Context.Err()`); the operation is answered with that error
-    let s := emit s (.started g id k)
-    (if s.ctxCancelled then s else emit s (.exec g k), [.result id g 0, .complete id g])
-  | .subscription | .subFail =>
-    let s? : Option Sys :=
-      match findSub s.subs id with
-      | none => some s
-      | some g' =>
-        if cfg.reuseFix && taskEnded s g' then some (callStop { s with subs := eraseSub s.subs id } g')
-        else none            -- "if the subscription already exists, ignore this message"
-    match s? with
+    startSync s g id k (!s.ctxCancelled)
+  | .subFail =>
+    match admitSub cfg s id with
     | none => (s, [])
-    | some s =>
-      let s := emit (emit s (.started g id k)) (.exec g k)
-      if k == .subFail then (s, [.result id g 0, .complete id g])
-      else ({ s with subs := (id, g) :: s.subs, tasks := s.tasks ++ [{ gen := g, id := id }] }, [])
+    | some s => startSync s g id k true
+  | .subscription =>
+    match admitSub cfg s id with
+    | none => (s, [])
+    | some s => (startSub s g id, [])
 
 def handleStop (s : Sys) (id : Id) : Sys :=
   match findSub s.subs id with
@@ -293,7 +309,7 @@ def readerExit (s : Sys) : Sys := { beginClosing s 1011 with reader := .done }
 
 /-- `handleMessage` (reader in `reading`, connection readable). -/
 def handle (cfg : Cfg) (s : Sys) (f : CFrame) : Sys :=
-  let s := emit s (.recv f)
+  let s := emit s (.recv f s.didInit)
   match f with
   | .close => readerExit { s with closeRecv := true }
   | .malformed =>
@@ -372,7 +388,7 @@ def subTaskStep (cfg : Cfg) (s : Sys) (g : Gen) : Sys :=
     match t.pc with
     | .select =>
       if t.cancelled || t.chanClosed then
-        { s with tasks := setTask s.tasks g (fun t => { t with pc := .sendComplete }) }
+        emit { s with tasks := setTask s.tasks g (fun t => { t with pc := .sendComplete }) } (.returned g)
       else s
     | .sendData ev =>
       match trySend cfg s (.result t.id t.gen ev) with
